@@ -36,6 +36,8 @@ type A struct {
 	badSplitCall   int
 	okRecheck      map[string]int
 	okBlind        int
+	badScratch     [8]byte
+	badEscape      E
 	next           http.Handler
 	log            Logger
 }
@@ -268,3 +270,28 @@ func (a *A) BlindRead() int {
 	defer a.mu.Unlock()
 	return a.okBlind
 }
+
+type E struct{ N int }
+
+// a scratch array field sliced and filled by somebody else
+func (a *A) Scratch() []byte {
+	buf := a.badScratch[:]
+	fill(buf)
+	return append([]byte(nil), buf...)
+}
+
+func fill(b []byte) {
+	for i := range b {
+		b[i] = byte(i)
+	}
+}
+
+// a pointer to a field leaves the critical section
+func (a *A) Escape(n int) *E {
+	a.mu.Lock()
+	defer a.mu.Unlock()
+	a.badEscape.N = n
+	return &a.badEscape
+}
+
+func (a *A) ReadEscaped(e *E) int { return e.N }
